@@ -185,6 +185,14 @@ func c18Stress(sc *c18Script) map[string]interface{} {
 				sent[s]++
 				s.SendData(map[string]interface{}{"tick": sent[s]}, nil)
 			}
+		case "burstping":
+			// events and client pings interleaved: the pong (written by the handler's read loop) and the
+			// data frames (written by Listen) share the connection
+			for k := 0; k < a.N; k++ {
+				sent[s]++
+				s.SendData(map[string]interface{}{"tick": sent[s]}, nil)
+				client.SendPing([]byte("p"))
+			}
 		case "complete":
 			s.SendComplete()
 		case "errobj":
